@@ -6,13 +6,15 @@ namespace QM.Streams
 set_option pp.structureInstances false
 
 /-- bytes of stream data the application consumed or discarded through this operation
-    (read; stop discards what is buffered unread; data arriving on a stopped stream and everything
-    beyond the read offset of a reset stream are discarded on arrival) -/
+    (read; stop discards what is buffered unread — nothing if the stream was reset before, all of it
+    having been discarded on arrival of the reset; data arriving on a stopped stream and everything
+    beyond the read offset of a reset stream — beyond its high-water mark if it was stopped before,
+    the rest having been discarded by `stop` — are discarded on arrival) -/
 def discarded (s : State) : Op → Out → Nat
   | .read _ _, .read k _ _ => k
   | .stop id _, .ok =>
     match s.recv.find? id with
-    | some (some r) => r.end_ - r.assembler.bytesRead
+    | some (some r) => if r.isReceiving then r.end_ - r.assembler.bytesRead else 0
     | _ => 0
   | .stream id off len _, .okFlag _ =>
     match s.recv.find? id with
@@ -20,7 +22,8 @@ def discarded (s : State) : Op → Out → Nat
     | _ => 0
   | .rst id _ fo, .okFlag _ =>
     match s.recv.find? id with
-    | some (some r) => if r.isReceiving then fo - r.assembler.bytesRead else 0
+    | some (some r) =>
+      if r.isReceiving then fo - (if r.stopped then r.end_ else r.assembler.bytesRead) else 0
     | some none => fo
     | none => 0
   | _, _ => 0
@@ -33,6 +36,12 @@ theorem rv_eq_some {s : State} {id : Nat} {r : Recv} : s.rv id = some r ↔ s.re
     constructor
     · intro h; contradiction
     · intro h; exact absurd h (hn r)
+
+theorem subU_eq {a b c : Nat} (h : subU a b = some c) : c = a - b ∧ b ≤ a := by
+  unfold subU at h
+  split at h
+  · simp only [Option.some.injEq] at h; exact ⟨h.symm, ‹_›⟩
+  · contradiction
 
 theorem satAdd_exact (a b : Nat) (h : a + b < 2 ^ 64) : satAdd a b = a + b := by
   simp only [satAdd, natMin_eq]; omega
@@ -162,7 +171,7 @@ theorem received_step {s s' : State} {id off len : Nat} {fin : Bool} {r : Except
                 obtain ⟨rfl, rfl⟩ := h
                 obtain ⟨hc3, hrv3⟩ := freeRecvIf_rv hfree
                 simp only [State.rcore, RCore.mk.injEq, State.putRecv] at hc3
-                obtain ⟨q1, q2, q3, q4, q5, q6⟩ := creditAndQueue_spec hcq
+                obtain ⟨q1, q2, q3, q4, q5, q6, q7⟩ := creditAndQueue_spec hcq
                 have hl3 : s3.localMaxData < 2 ^ 64 := by rw [hc3.2.1, hc1.2.1]; exact hlmd
                 constructor
                 · refine i.step (by rw [q4, hc3.2.2.2.2, hsrw1]) (q5 hl3).2 ?_ ?_
@@ -306,7 +315,7 @@ theorem read_step {s s' : State} {id budget : Nat} {r : ReadRes}
                 have f3 := rvw_freeIf hfree
                 have f4 := rvw_queueMaxStreamId hq
                 obtain ⟨hc5, hrv5⟩ := finalizeReadable_rv hfin
-                obtain ⟨q1, q2, q3, q4, q5, q6⟩ := addReadCredits_spec harc
+                obtain ⟨q1, q2, q3, q4, q5, q6, q7⟩ := addReadCredits_spec harc
                 have hc4 : s4.rcore = s1.rcore := by
                   have := congrArg RView.core (f4.trans f3); exact this
                 have hc5' : s5.rcore = s.rcore := hc5.trans (hc4.trans hc1)
@@ -365,7 +374,8 @@ theorem stop_step {s s' : State} {id code : Nat} {b : Bool}
       simp only [discarded, Bool.false_eq_true, ↓reduceIte, Nat.add_zero]; unfold Bal at *; omega
     · rename_i credits stopSending rs' hst
       -- what `Recv::stop` returned
-      have hst' : rs.stopped = false ∧ credits = rs.end_ - rs.assembler.bytesRead ∧
+      have hst' : rs.stopped = false ∧
+          credits = (if rs.isReceiving then rs.end_ - rs.assembler.bytesRead else 0) ∧
           rs' = { rs with stopped := true, assembler := rs.assembler.clear } := by
         unfold Recv.stop at hst
         split at hst
@@ -375,11 +385,14 @@ theorem stop_step {s s' : State} {id code : Nat} {b : Bool}
           · contradiction
           · rename_i c hsub
             simp only [Option.some.injEq, Prod.mk.injEq] at hst
-            unfold subU at hsub
-            split at hsub
-            · simp only [Option.some.injEq] at hsub
-              exact ⟨by simpa using hns, by rw [← hst.1, ← hsub], hst.2.2.symm⟩
-            · contradiction
+            simp only [Gen.stopCreditsOnlyReceiving, Bool.true_and] at hsub
+            refine ⟨by simpa using hns, ?_, hst.2.2.symm⟩
+            rw [← hst.1]
+            cases hrcv : rs.isReceiving
+            · simp only [hrcv, Bool.not_false, ↓reduceIte, Option.some.injEq] at hsub
+              simp [← hsub]
+            · simp only [hrcv, Bool.not_true, Bool.false_eq_true, ↓reduceIte] at hsub
+              simp [(subU_eq hsub).1]
       obtain ⟨hns, hcr, hrs'⟩ := hst'
       have ok' : RecvOk s.streamReceiveWindow rs' := by
         rw [hrs']
@@ -397,7 +410,7 @@ theorem stop_step {s s' : State} {id code : Nat} {b : Bool}
           have hc4' : s4.rcore = s.rcore := by
             rw [hc4]; exact (congrArg RView.core hq).trans hc1
           simp only [State.rcore, RCore.mk.injEq] at hc4'
-          obtain ⟨q1, q2, q3, q4, q5, q6⟩ := creditAndQueue_spec hcq
+          obtain ⟨q1, q2, q3, q4, q5, q6, q7⟩ := creditAndQueue_spec hcq
           have hl4 : s4.localMaxData < 2 ^ 64 := by rw [hc4'.2.1]; exact i.lmd_u64
           have hrl := i.recvd_le
           simp only [State.rvw, State.rcore] at hrl
@@ -463,11 +476,12 @@ theorem setReceiveWindow_step (s : State) (n : Nat) (i : RInv s) :
   unfold State.setReceiveWindow
   split
   · rename_i hgt
+    dsimp only
     constructor
     · refine i.step rfl (by simp only [satAdd, natMin_eq]; omega) (by simp only [satAdd, natMin_eq]; omega)
         (fun k r hk => Or.inl hk)
     · intro C b u
-      simp only [Bal, Unsat, satAdd, natMin_eq] at *
+      simp only [Bal, Unsat, satAdd, natMin_eq, Gen.recvWindowCancelled] at *
       omega
   · rename_i hle
     constructor
@@ -475,6 +489,16 @@ theorem setReceiveWindow_step (s : State) (n : Nat) (i : RInv s) :
     · intro C b u
       simp only [Bal, Unsat, satAdd, natMin_eq] at *
       omega
+
+/-- configured window plus unpaid shrink debt never exceeds the largest window configured so far -/
+theorem setReceiveWindow_wd (s : State) (n W : Nat)
+    (h : s.receiveWindow + s.receiveWindowShrinkDebt ≤ W) :
+    (s.setReceiveWindow n).1.receiveWindow + (s.setReceiveWindow n).1.receiveWindowShrinkDebt ≤ Nat.max W n := by
+  unfold State.setReceiveWindow
+  split
+  · dsimp only
+    simp only [Gen.recvWindowCancelled, natMin_eq, natMax_eq]; omega
+  · simp only [satAdd, natMin_eq, natMax_eq]; omega
 
 theorem receivedReset_step {s s' : State} {id code fo : Nat} {r : Except TErr Bool}
     (h : s.receivedReset id code fo = some (s', r)) (i : RInv s) :
@@ -569,7 +593,16 @@ theorem receivedReset_step {s s' : State} {id code fo : Nat} {r : Except TErr Bo
           have hc4' := hc4
           simp only [State.rcore, RCore.mk.injEq] at hc4'
           -- what the specification says was discarded
-          have hd : ∀ t, discarded s (.rst id code fo) (outT (.ok t)) = fo - rs.assembler.bytesRead := by
+          have hstp : rs'.stopped = rs.stopped := by rw [hrs']
+          have hcrd : Gen.resetCredited rs'.stopped rs'.end_ rs'.assembler.bytesRead =
+              (if rs.stopped then rs.end_ else rs.assembler.bytesRead) := by
+            simp only [Gen.resetCredited, hstp, hend, hbr]
+          have hcle : (if rs.stopped then rs.end_ else rs.assembler.bytesRead) ≤ rs.end_ := by
+            split
+            · exact Nat.le_refl _
+            · exact hrsok.read_le
+          have hd : ∀ t, discarded s (.rst id code fo) (outT (.ok t)) =
+              fo - (if rs.stopped then rs.end_ else rs.assembler.bytesRead) := by
             intro t
             simp only [discarded, outT]
             rcases hor with hh | ⟨hh, hnew⟩
@@ -592,11 +625,10 @@ theorem receivedReset_step {s s' : State} {id code fo : Nat} {r : Except TErr Bo
                     unfold subU at hd1; split at hd1
                     · simp only [Option.some.injEq] at hd1; rw [hend] at hd1; rw [hend] at *; omega
                     · contradiction
-                  have hcv : credits = fo - rs.assembler.bytesRead := by
-                    unfold subU at hd2; split at hd2
-                    · simp only [Option.some.injEq] at hd2; rw [hbr] at hd2; omega
-                    · contradiction
-                  obtain ⟨q1, q2, q3, q4, q5, q6⟩ := creditAndQueue_spec hcq
+                  have hcv : credits = fo - (if rs.stopped then rs.end_ else rs.assembler.bytesRead) := by
+                    rw [hcrd] at hd2
+                    exact (subU_eq hd2).1
+                  obtain ⟨q1, q2, q3, q4, q5, q6, q7⟩ := creditAndQueue_spec hcq
                   have hexact : satAdd (s3.onStreamFrame (!rs'.stopped) id).dataRecvd d =
                       s.dataRecvd + (fo - rs.end_) := by
                     rw [hc4'.1, hdv.1]; apply satAdd_exact
@@ -626,8 +658,8 @@ theorem receivedReset_step {s s' : State} {id code fo : Nat} {r : Except TErr Bo
             rename_i heq
             simp only [Option.some.injEq, Prod.mk.injEq] at h
             obtain ⟨rfl, rfl⟩ := h
-            have heq' : rs.assembler.bytesRead = fo := by
-              rw [← hbr]; exact Decidable.byContradiction heq
+            have heq' : (if rs.stopped then rs.end_ else rs.assembler.bytesRead) = fo := by
+              rw [← hcrd]; exact Decidable.byContradiction heq
             constructor
             · exact i.step hc4'.2.2.2.2 (by rw [hc4'.2.1]; exact hlmd) (by rw [hc4'.1, hc4'.2.1]; exact hrl) hrv4
             · intro C b _
@@ -699,5 +731,115 @@ theorem writeControlFrames_step {s s' : State} {fs : List CtrlFrame}
         dsimp only; split <;> split <;> rfl
       rw [e2, e2, e1, e1]
     exact ⟨RInv.of_rvw hv i3, (congrArg RView.core hv).trans (hc3.trans (congrArg RView.core hv0))⟩
+
+/-! ### configured window and unpaid shrink debt -/
+
+/-- (configured connection receive window, shrink debt not yet paid off) -/
+def State.wdv (s : State) : Nat × Nat := (s.receiveWindow, s.receiveWindowShrinkDebt)
+
+/-- the configured window is unchanged and the unpaid shrink debt did not grow -/
+def WDV (a b : Nat × Nat) : Prop := b.1 = a.1 ∧ b.2 ≤ a.2
+
+theorem WDV.refl (a : Nat × Nat) : WDV a a := ⟨rfl, Nat.le_refl _⟩
+theorem WDV.trans {a b c : Nat × Nat} (h1 : WDV a b) (h2 : WDV b c) : WDV a c :=
+  ⟨h2.1.trans h1.1, Nat.le_trans h2.2 h1.2⟩
+theorem WDV.of_eq {a b : Nat × Nat} (h : b = a) : WDV a b := h ▸ WDV.refl a
+
+theorem wdv_of_rcore {s s' : State} (h : s'.rcore = s.rcore) : s'.wdv = s.wdv := by
+  simp only [State.rcore, RCore.mk.injEq] at h
+  simp only [State.wdv, h.2.2.1, h.2.2.2.1]
+
+theorem wdv_of_rvw {s s' : State} (h : s'.rvw = s.rvw) : s'.wdv = s.wdv :=
+  wdv_of_rcore (congrArg RView.core h)
+
+theorem wdv_credit {s s' : State} {c : Nat} {t : Bool} (h : s.creditAndQueue c = some (s', t)) :
+    WDV s.wdv s'.wdv := by
+  obtain ⟨_, _, q3, _, _, _, q7⟩ := creditAndQueue_spec h
+  exact ⟨q3, q7⟩
+
+theorem wdv_addReadCredits {s s' : State} {c : Nat} {t : Bool} (h : s.addReadCredits c = some (s', t)) :
+    WDV s.wdv s'.wdv := by
+  obtain ⟨_, _, q3, _, _, _, q7⟩ := addReadCredits_spec h
+  exact ⟨q3, q7⟩
+
+theorem wdv_getOrInsertRecv {s s1 : State} {id : Nat} {rs : Recv} (h : s.getOrInsertRecv id = some (rs, s1)) :
+    s1.wdv = s.wdv := wdv_of_rcore (getOrInsertRecv_spec h).1
+
+theorem wdv_freeRecvIf {s s' : State} {c : Bool} {id : Nat} (h : s.freeRecvIf c id = some s') :
+    s'.wdv = s.wdv := wdv_of_rcore (freeRecvIf_rv h).1
+
+theorem wdv_received {s s' : State} {id off len : Nat} {fin : Bool} {r : Except TErr Bool}
+    (h : s.received id off len fin = some (s', r)) : WDV s.wdv s'.wdv := by
+  unfold State.received at h
+  osplit h
+  all_goals first
+    | (obtain ⟨rfl, _⟩ := h; exact WDV.refl _)
+    | (have hg := wdv_getOrInsertRecv ‹State.getOrInsertRecv _ _ = some _›
+       first
+        | (obtain ⟨rfl, _⟩ := h; exact WDV.of_eq hg)
+        | (obtain ⟨rfl, _⟩ := h
+           exact WDV.of_eq ((wdv_of_rvw (rvw_onStreamFrame _ _ _)).trans hg))
+        | (have hf := wdv_freeRecvIf ‹State.freeRecvIf _ _ _ = some _›
+           have hc := wdv_credit ‹State.creditAndQueue _ _ = some _›
+           obtain ⟨rfl, _⟩ := h
+           exact (WDV.of_eq (hf.trans hg)).trans hc))
+
+theorem wdv_receivedReset {s s' : State} {id code fo : Nat} {r : Except TErr Bool}
+    (h : s.receivedReset id code fo = some (s', r)) : WDV s.wdv s'.wdv := by
+  unfold State.receivedReset at h
+  osplit h
+  all_goals first
+    | (obtain ⟨rfl, _⟩ := h; exact WDV.refl _)
+    | (have hg := wdv_getOrInsertRecv ‹State.getOrInsertRecv _ _ = some _›
+       first
+        | (obtain ⟨rfl, _⟩ := h; exact WDV.of_eq hg)
+        | (have hf := wdv_freeRecvIf ‹State.freeRecvIf _ _ _ = some _›
+           first
+            | (obtain ⟨rfl, _⟩ := h
+               exact WDV.of_eq ((wdv_of_rvw (rvw_onStreamFrame _ _ _)).trans (hf.trans hg)))
+            | (have hc := wdv_credit ‹State.creditAndQueue _ _ = some _›
+               obtain ⟨rfl, _⟩ := h
+               exact (WDV.of_eq ((wdv_of_rvw (rvw_onStreamFrame _ _ _)).trans (hf.trans hg))).trans hc)))
+
+theorem wdv_read {s s' : State} {id budget : Nat} {r : ReadRes}
+    (h : s.read id budget = some (s', r)) : WDV s.wdv s'.wdv := by
+  unfold State.read at h
+  osplit h
+  all_goals first
+    | (obtain ⟨rfl, _⟩ := h; exact WDV.refl _)
+    | (have hg := wdv_getOrInsertRecv ‹State.getOrInsertRecv _ _ = some _›
+       first
+        | (obtain ⟨rfl, _⟩ := h; exact WDV.of_eq hg)
+        | (have f2 := wdv_of_rvw (rvw_freeIf ‹State.freeIf _ _ _ = some _›)
+           have f3 := wdv_of_rvw (rvw_queueMaxStreamId ‹State.queueMaxStreamId _ = some _›)
+           have f4 := wdv_of_rcore (finalizeReadable_rv ‹State.finalizeReadable _ _ _ _ _ = some _›).1
+           have f5 := wdv_addReadCredits ‹State.addReadCredits _ _ = some _›
+           obtain ⟨rfl, _⟩ := h
+           exact (WDV.of_eq (f4.trans (f3.trans (f2.trans hg)))).trans f5))
+
+theorem wdv_stop {s s' : State} {id code : Nat} {b : Bool}
+    (h : s.stop id code = some (s', b)) : WDV s.wdv s'.wdv := by
+  unfold State.stop at h
+  osplit h
+  all_goals first
+    | (obtain ⟨rfl, _⟩ := h; exact WDV.refl _)
+    | (have hg := wdv_getOrInsertRecv ‹State.getOrInsertRecv _ _ = some _›
+       first
+        | (obtain ⟨rfl, _⟩ := h; exact WDV.of_eq hg)
+        | (have hf := wdv_freeRecvIf ‹State.freeRecvIf _ _ _ = some _›
+           have hc := wdv_credit ‹State.creditAndQueue _ _ = some _›
+           obtain ⟨rfl, _⟩ := h
+           exact (WDV.of_eq (hf.trans ((wdv_of_rvw (rvw_queueStopSending _ _ _ _)).trans hg))).trans hc))
+
+theorem wdv_recvReceivedReset {s s' : State} {id : Nat} {r : Option (Option Nat)}
+    (h : s.recvReceivedReset id = some (s', r)) : WDV s.wdv s'.wdv := by
+  unfold State.recvReceivedReset at h
+  osplit h
+  all_goals first
+    | (obtain ⟨rfl, _⟩ := h; exact WDV.refl _)
+    | (have hf := wdv_of_rvw (rvw_streamRecvFreed ‹State.streamRecvFreed _ _ = some _›)
+       have hq := wdv_of_rvw (rvw_queueMaxStreamId ‹State.queueMaxStreamId _ = some _›)
+       obtain ⟨rfl, _⟩ := h
+       exact WDV.of_eq (hq.trans hf))
 
 end QM.Streams
